@@ -48,6 +48,19 @@ def string_corpus():
 
 def coll_corpus():
     out = []
+    # LREM: which occurrences go, seen through the order of what is left (count > 0 from the head, < 0 from the tail, 0 all)
+    base = [b"RPUSH", b"l", b"x", b"a", b"x", b"b", b"x", b"c", b"x"]
+    for cnt in (b"1", b"2", b"3", b"4", b"5", b"-1", b"-2", b"-3", b"-4", b"-5", b"0", b"-9223372036854775808", b"9223372036854775807"):
+        out.append(("lrem-order", [base, [b"LREM", b"l", cnt, b"x"], [b"LRANGE", b"l", b"0", b"-1"], [b"LREM", b"l", cnt, b"a"], [b"LRANGE", b"l", b"0", b"-1"]]))
+    # counts at 0 / 1 / length / beyond, with and without the optional count: reply SHAPE (bulk vs array, nil vs empty array)
+    for cmd, setup in ((b"SPOP", [b"SADD", b"s", b"m"]), (b"SRANDMEMBER", [b"SADD", b"s", b"m"]), (b"LPOP", [b"RPUSH", b"l", b"m"]), (b"RPOP", [b"RPUSH", b"l", b"m"])):
+        key = setup[1]
+        for cnt in (None, b"0", b"1", b"2", b"-1"):
+            tail = [] if cnt is None else [cnt]
+            out.append(("count-shape", [setup, [cmd, key] + tail, [b"EXISTS", key], [cmd, key] + tail, [cmd, b"miss"] + tail]))
+    # indexes at and beyond both ends for every index-taking list command
+    for idx in (b"0", b"2", b"3", b"-1", b"-3", b"-4", b"-5", b"100", b"-100", b"9223372036854775807", b"-9223372036854775808"):
+        out.append(("index-ends", [[b"RPUSH", b"l", b"a", b"b", b"c"], [b"LSET", b"l", idx, b"Z"], [b"LRANGE", b"l", b"0", b"-1"], [b"LINDEX", b"l", idx], [b"LRANGE", b"l", idx, idx], [b"LTRIM", b"l", idx, b"-1"], [b"LRANGE", b"l", b"0", b"-1"]]))
     for v in NUM_TEXTS:
         out.append(("stored-num-text", [[b"HSET", b"h", b"f1", v], [b"HINCRBY", b"h", b"f1", b"1"], [b"HGET", b"h", b"f1"]]))
         out.append(("arg-num-text", [[b"HSET", b"h", b"f1", b"1"], [b"HINCRBY", b"h", b"f1", v], [b"HGET", b"h", b"f1"]]))
